@@ -11,7 +11,24 @@ class Program:
         self.facts = Facts(repo)
         self.repo = self.facts.repo
         self.functions = list(self.facts.functions)
+        self._cfg = {}
+        self._callees = {}
+        self._callers = None
+        self.noreturn = frozenset()
+        self.inlined_new = {}
+        self._index()
+        # new helper functions are inlined into their callers before lambdas are collected (the rewritten bodies hold new nodes)
+        if not os.environ.get('BLOCHSA_NO_GLOBAL_NORM'):
+            self._inline_new_functions()
         self._add_lambdas()
+        self._index()
+        self._cfg = {}
+        self._callees = {}
+        self._callers = None
+        self._normalised = {}
+        self.noreturn = self._compute_noreturn()
+
+    def _index(self):
         self.by_key = {}
         self.by_name = {}
         for f in self.functions:
@@ -21,10 +38,60 @@ class Program:
         for f in self.functions:
             for b in f.d.get('overrides', []) if hasattr(f, 'd') else []:
                 self._overriders.setdefault(b + f.sig, []).append(f)
-        self._cfg = {}
-        self._callees = {}
-        self._callers = None
-        self.noreturn = self._compute_noreturn()
+
+    # ---- functions introduced since the anchors were confirmed -------------------------------------
+    def _inline_new_functions(self):
+        """Functions that are not in the canonical table (sa/blochsa/canon_names.json: every function of the tree the rule anchors were
+        confirmed on) are *new helpers* — typically steps a maintainer extracted from a long function.  They are inlined (K-NORM,
+        meaning-preserving) into their callers wherever the call stands in a statement, initialiser, assignment or return position,
+        so that a rule written over the long function still sees its steps.  The helper itself stays in the program (rules that
+        sweep all functions read it too).  On a tree without new functions this does nothing."""
+        import json as _json
+        p = os.path.join(os.path.dirname(os.path.abspath(__file__)), 'canon_names.json')
+        if not os.path.exists(p):
+            return
+        T = _json.load(open(p))
+        known_m = {(r, m[0]) for r, t in T.get('records', {}).items() for m in t['methods']}
+        known_f = {(rel, x[0]) for rel, fl in T.get('files', {}).items() for x in fl}
+        known_files = set(T.get('files', {}))
+        new = []
+        for f in self.functions:
+            if f.kind not in ('method', 'function') or not f.body or '/third_party/' in f.file or not f.file.startswith(self.repo):
+                continue
+            if f.cls:
+                if f.cls in T.get('records', {}) and (f.cls, f.short) not in known_m:
+                    new.append(f)
+            else:
+                rel = os.path.relpath(f.file, self.repo)
+                if (rel in known_files or any(r_.endswith('.cpp') and os.path.dirname(r_) == os.path.dirname(rel) for r_ in known_files)) and (rel, f.name) not in known_f \
+                        and not rel.endswith('.hpp'):
+                    new.append(f)
+        if not new:
+            return
+        from .knorm import normalise
+        only = {f.key for f in new}
+        self._new_keys = only
+        for f in list(self.functions):
+            if f.kind == 'lambda' or not f.body or '/third_party/' in f.file:
+                continue
+            f2 = normalise(self, f, depth=4, only=only)
+            if f2 is not f:
+                self.inlined_new[f.name] = getattr(f2, 'normalised', {})
+                f.body = f2.body
+                f.d = dict(f.d, body=f2.body)
+        # a new helper whose every call was inlined is covered where it was inlined (with the callers' context in view): it is not
+        # analysed a second time on its own, where e.g. a position it receives as a parameter could not be traced to the node
+        called = set()
+        for f in self.functions:
+            if f.body:
+                for n in SX.walk(f.body):
+                    if n.get('k') in ('call', 'mcall') and n.get('callee'):
+                        called.add(n['callee'])
+        gone = [f for f in new if f.name not in called]
+        if gone:
+            gk = {id(f) for f in gone}
+            self.functions = [f for f in self.functions if id(f) not in gk]
+            self.covered_new = sorted(f.name for f in gone)
 
     # ---- lambdas ----------------------------------------------------------------------------
     def _add_lambdas(self):
